@@ -13,6 +13,7 @@
   Proof technique: induction over the history with the refinement relation of Lemmas/DispatchRefine.lean.
 -/
 import MptModel.Lemmas.DispatchRefine
+import MptModel.Lemmas.DispatchBook
 set_option linter.constructorNameAsVariable false
 namespace Mpt.C11
 open Mpt.Dispatch
@@ -121,6 +122,32 @@ theorem delivery_hash (st : Start) (ops : List Op) (msg : List Byte) (h : HRes) 
 example : cmdIds [0, 0, 0x61] = [some 177604] ∧ cmdIds [4, 0x3a, 0x20, 0x61, 0x3a, 0x62] = [some 177604] := by decide
 example : (step (stateAfter .fb [.set 177604]) (.hash [4, 0x3a, 0x20, 0x61, 0x3a, 0x62] ⟨2, false⟩)).2 = ⟨.val 2, [.call 1 177604]⟩ := by
   decide
+
+/-- **delivery (white-space separated command)**: for a Command message whose separator is a blank (arguments split
+    at white space) and whose command word is plain — no quote characters, followed by a blank or the end of the
+    message — the handler invoked is exactly the one registered for the hash of that word (`wsWord`: the text after
+    the leading white space up to the first white-space character); no other cut of the text is accepted. -/
+theorem delivery_hash_word (st : Start) (ops : List Op) (sep : Byte) (payload : List Byte) (h : HRes)
+    (hs : sep ≠ 0) (hg : isGraph sep = false) (hp : plainWord payload = true) :
+    cmdIds (msgCommand :: sep :: payload) = [some (hashDjb2 (wsWord payload))] ∧
+    ∃ sp, (Spec.init st).run (run st ops).2 = some sp ∧
+      (step (stateAfter st ops) (.hash (msgCommand :: sep :: payload) h)).2.log = sp.hashLog (some (hashDjb2 (wsWord payload))) := by
+  have hc : cmdIds (msgCommand :: sep :: payload) = [some (hashDjb2 (wsWord payload))] := by
+    simp [cmdIds, hs, hg, hp]
+  refine ⟨hc, ?_⟩
+  obtain ⟨sp, hrun, cid, hmem, hlog⟩ := delivery_hash st ops (msgCommand :: sep :: payload) h
+  rw [hc, List.mem_singleton] at hmem
+  exact ⟨sp, hrun, by rw [hlog, hmem]⟩
+
+/-- "ab c" split at blanks: the command is "ab" (177622 = djb2 "a" is not a reading); with handlers for both hashes
+    the one for "ab" is invoked -/
+example : plainWord [0x61, 0x62, 0x20, 0x63] = true ∧ wsWord [0x20, 0x61, 0x62, 0x20, 0x63] = [0x61, 0x62] ∧
+    cmdIds [4, 0x20, 0x61, 0x62, 0x20, 0x63] = [some (hashDjb2 [0x61, 0x62])] := by decide
+example : (step (stateAfter .fb [.set (hashDjb2 [0x61]), .set (hashDjb2 [0x61, 0x62])]) (.hash [4, 0x20, 0x61, 0x62, 0x20, 0x63] ⟨2, false⟩)).2
+    = ⟨.val 2, [.call 2 (hashDjb2 [0x61, 0x62])]⟩ := by decide
+/-- the monitor rejects a delivery to the handler of a shorter cut of the word -/
+example : (Spec.init .fb).run [(.set (hashDjb2 [0x61]), ⟨.val 1, []⟩), (.set (hashDjb2 [0x61, 0x62]), ⟨.val 1, []⟩),
+    (.hash [4, 0x20, 0x61, 0x62, 0x20, 0x63] ⟨2, false⟩, ⟨.val 2, [.call 1 (hashDjb2 [0x61])]⟩)] = none := by decide
 
 /-- **delivery (fragmented command message)**: a command message that arrives in several fragments is dispatched
     like the flattened message: same handler, same answer, whatever the fragment boundaries are (inside the header,
@@ -318,12 +345,12 @@ theorem default_bookkeeping (st : Start) (ops : List Op) (id : Id) (h : HRes) :
     · simp [hb]
 
 /-- the same for the default event (the event id is the default id itself; a default id that names no handler is
-    refused and forgotten without asking any fallback) -/
+    refused and forgotten without asking any fallback: when nobody is invoked there is no default event afterwards) -/
 theorem default_bookkeeping_none (st : Start) (ops : List Op) (h : HRes) :
     let m := stateAfter st ops
     let r := step m (.emitNone h)
     (r.2.log ≠ [] → r.2.ret = .val (book m.d.dflt m.d.dflt h).1 ∧ r.1.d.dflt = (book m.d.dflt m.d.dflt h).2) ∧
-    (r.2.log = [] → r.1.d.dflt = m.d.dflt ∨ r.1.d.dflt = 0) := by
+    (r.2.log = [] → r.1.d.dflt = 0) := by
   obtain ⟨sp, hrun, hrel, hw, hs, _⟩ := run_refines st ops
   intro m r
   have hw' : TWf m.d.tab := hw
@@ -341,6 +368,67 @@ theorem default_bookkeeping_none (st : Start) (ops : List Op) (h : HRes) :
       rw [emitResolved_spec (cmd := some (i, s)) (fun i' s' he => by cases he; exact get_user hw' i s hg)]
       simp [resolveReg]
 
+/-- the same for an event given as a message (the id is the first byte) -/
+theorem default_bookkeeping_msg (st : Start) (ops : List Op) (b : Byte) (rest : List Byte) (h : HRes) :
+    let m := stateAfter st ops
+    let r := step m (.emitMsg (b :: rest) h)
+    let id := b.toUInt64
+    (r.2.log ≠ [] → r.2.ret = .val (book m.d.dflt id h).1 ∧ r.1.d.dflt = (book m.d.dflt id h).2) ∧
+    (r.2.log = [] → m.d.bi = true →
+      r.2.ret = .val (book m.d.dflt id (builtinAnswer id (some (b :: rest)))).1 ∧
+      r.1.d.dflt = (book m.d.dflt id (builtinAnswer id (some (b :: rest)))).2) ∧
+    (r.2.log = [] → m.d.bi = false → r.1.d.dflt = m.d.dflt) := by
+  obtain ⟨sp, hrun, hrel, hw, hs, _⟩ := run_refines st ops
+  intro m r id
+  have hw' : TWf m.d.tab := hw
+  have hr : r = ({ m with d := (emitResolved m.d (commandGet m.d.tab id) id (some (b :: rest)) false h).1 },
+      (emitResolved m.d (commandGet m.d.tab id) id (some (b :: rest)) false h).2) := rfl
+  rw [hr, emitResolved_spec (get_user hw')]
+  cases resolveReg (commandGet m.d.tab id) m.d.err with
+  | some r => simp
+  | none =>
+    by_cases hb : m.d.bi = true
+    · simp [hb]
+    · simp [hb]
+
+/-- **bookkeeping follows the flags**, against the declarative statement `Follows` (Spec/Dispatch.lean: default id
+    := event id as the handler left it exactly when the answer carries `Default`, every other flag handed through,
+    `Default` in the returned value exactly when a default event exists afterwards, errors passed through), for an
+    event with id, an event given as message and the default event; handler answers are C `int`s. -/
+theorem bookkeeping_follows_flags (st : Start) (ops : List Op) (id : Id) (h : HRes) (hv : h.val < 2 ^ 31) :
+    let m := stateAfter st ops
+    let r := step m (.emitId id h)
+    r.2.log ≠ [] → ∃ ret, r.2.ret = .val ret ∧ Follows m.d.dflt (if h.zero then 0 else id) h.val ret r.1.d.dflt := by
+  intro m r hl
+  obtain ⟨hret, hd⟩ := (default_bookkeeping st ops id h).1 hl
+  exact ⟨_, hret, by rw [hd]; exact book_follows _ _ _ hv⟩
+
+theorem bookkeeping_follows_flags_msg (st : Start) (ops : List Op) (b : Byte) (rest : List Byte) (h : HRes) (hv : h.val < 2 ^ 31) :
+    let m := stateAfter st ops
+    let r := step m (.emitMsg (b :: rest) h)
+    r.2.log ≠ [] → ∃ ret, r.2.ret = .val ret ∧ Follows m.d.dflt (if h.zero then 0 else b.toUInt64) h.val ret r.1.d.dflt := by
+  intro m r hl
+  obtain ⟨hret, hd⟩ := (default_bookkeeping_msg st ops b rest h).1 hl
+  exact ⟨_, hret, by rw [hd]; exact book_follows _ _ _ hv⟩
+
+theorem bookkeeping_follows_flags_none (st : Start) (ops : List Op) (h : HRes) (hv : h.val < 2 ^ 31) :
+    let m := stateAfter st ops
+    let r := step m (.emitNone h)
+    r.2.log ≠ [] → ∃ ret, r.2.ret = .val ret ∧ Follows m.d.dflt (if h.zero then 0 else m.d.dflt) h.val ret r.1.d.dflt := by
+  intro m r hl
+  obtain ⟨hret, hd⟩ := (default_bookkeeping_none st ops h).1 hl
+  exact ⟨_, hret, by rw [hd]; exact book_follows _ _ _ hv⟩
+
+/-- `Follows` pins the outcome down: there is exactly one (returned value, default id) that follows the flags -/
+theorem bookkeeping_determined {dflt left : Id} {v r1 r2 : Int} {d1 d2 : Id}
+    (h1 : Follows dflt left v r1 d1) (h2 : Follows dflt left v r2 d2) : r1 = r2 ∧ d1 = d2 := follows_unique h1 h2
+
+/-- answer `Default|Fail` (3) with the id kept: event 7 becomes the default, the caller sees 3; answer 4 (another
+    flag) while a default exists: handed through with `Default` added; an error changes nothing -/
+example : Follows 0 7 3 3 7 ∧ Follows 7 9 4 5 7 ∧ Follows 7 9 (-5) (-5) 7 ∧ ¬ Follows 0 7 3 3 0 ∧ ¬ Follows 7 9 4 4 7 := by
+  unfold Follows; decide
+example : (step (stateAfter .fb [.set 7]) (.emitMsg [7, 1] ⟨3, false⟩)).1.d.dflt = 7 := by decide
+
 example : book 0 7 ⟨3, false⟩ = (3, 7) ∧ book 7 7 ⟨3, true⟩ = (2, 0) ∧ book 7 9 ⟨-5, true⟩ = (-5, 7) ∧ book 7 9 ⟨4, false⟩ = (5, 7) := by decide
 example : (step (stateAfter .fb [.set 7]) (.emitId 7 ⟨3, false⟩)).2.ret = .val 3 := by decide
 
@@ -357,6 +445,48 @@ theorem ids_distinct (st : Start) (ops : List Op) :
     ((liveList (stateAfter st ops).d.tab).map (·.1)).Nodup ∧ ((liveList (stateAfter st ops).d.tab).map (·.2)).Nodup := by
   obtain ⟨sp, _, _, hw, _⟩ := run_refines st ops
   exact ⟨hw.keys, hw.regs⟩
+
+/-- **reserve on any table**: whatever the table holds — handlers, free elements, and reservations that are still
+    outstanding (placeholder handler, not yet activated by the caller; such states are not produced by the histories
+    above, where a reservation is activated at once) — an id handed out by `mpt_command_reserve` is carried by no
+    active element, the active elements stay what they were, and distinct ids stay distinct. -/
+theorem reserve_unique_any_table (tab tab' : Option Table) (w idx : Nat) (h : commandReserve tab w = (tab', some idx)) :
+    ∃ t' s, tab' = some t' ∧ t'.slots[idx]? = some s ∧ s.cmd = some .logReply ∧
+      (∀ r, (s.id, r) ∉ liveList tab) ∧
+      (∀ p, p ∈ liveList tab' ↔ p ∈ liveList tab ∨ p = (s.id, s.arg)) ∧
+      (((liveList tab).map (·.1)).Nodup → ((liveList tab').map (·.1)).Nodup) := by
+  obtain ⟨a, b, idv, m, cap, rfl, rfl, hlive, _, hfresh⟩ := commandReserve_some h
+  refine ⟨_, ⟨idv, some .logReply, m⟩, rfl, by simp, rfl, hfresh, ?_, ?_⟩
+  · intro p
+    rw [liveList_some, liveL_append, liveL_cons, ← hlive]
+    simp only [Slot.live, Option.isSome_some, if_true, List.mem_append, List.mem_cons]
+    constructor
+    · rintro (h1 | h1 | h1)
+      · exact Or.inl (Or.inl h1)
+      · exact Or.inr h1
+      · exact Or.inl (Or.inr h1)
+    · rintro ((h1 | h1) | h1)
+      · exact Or.inl h1
+      · exact Or.inr (Or.inr h1)
+      · exact Or.inr (Or.inl h1)
+  · intro hnd
+    rw [liveList_some, liveL_append, liveL_cons]
+    rw [← hlive] at hnd hfresh
+    simp only [Slot.live, Option.isSome_some, if_true, List.map_append, List.map_cons, List.nodup_append, List.nodup_cons,
+      List.mem_map, List.mem_append, List.mem_cons] at hnd hfresh ⊢
+    grind
+
+/-- **when reserve must succeed**: for a valid width class `mpt_command_reserve` hands out an id whenever some id of
+    the class's range `1..max` is carried by no active element (it refuses only when the whole range is taken);
+    again for any table. -/
+theorem reserve_succeeds (tab : Option Table) (w i : Nat) (hw : widthMax w ≠ 0) (h1 : 1 ≤ i) (h2 : i ≤ widthMax w)
+    (hfree : ∀ r, (UInt64.ofNat i, r) ∉ liveList tab) : ∃ tab' idx, commandReserve tab w = (tab', some idx) :=
+  commandReserve_succeeds tab w i hw h1 h2 hfree
+
+/-- two reservations in a row, the first one still outstanding: ids 1 and 2; with the 127 ids of width class 1 all
+    outstanding the next one is refused -/
+example : (commandReserve (commandReserve none 1).1 1).2 = some 1 ∧
+    ((commandReserve (commandReserve none 1).1 1).1.map fun t => t.slots.map (·.id)) = some [1, 2] := by decide
 
 /-- **reserve_unique**: an id handed out by `mpt_command_reserve` (any width class) after any history is a 64-bit
     value that no live element carries, and afterwards all live ids are still pairwise distinct; the elements
